@@ -8,7 +8,11 @@ from oslo_utils.imageutils import format_inspector as fi
 def region_obs(insp, data):
     """name -> (offset, length, len(data), complete, faithful)"""
     out = {}
-    for name, r in insp._capture_regions.items():
+    regs = getattr(insp, '_capture_regions', None)
+    if not isinstance(regs, dict):
+        # the private table has moved: the public view (names through context_info, regions through region())
+        regs = {name: insp.region(name) for name in insp.context_info}
+    for name, r in regs.items():
         d = r.data
         faithful = (len(d) == 0) or (r.offset >= 0 and
                                      bytes(data[r.offset:r.offset + len(d)]) == bytes(d))
